@@ -16,8 +16,9 @@ func init() {
 			r.use("linux")
 			c17(r)
 			if r.Tier == "thorough" {
-				r.use("darwin")
-				c17(r)
+				if r.useOpt("darwin") != nil {
+					c17(r)
+				}
 			}
 		})
 }
@@ -127,6 +128,57 @@ func c17(r *Run) {
 	}
 	for _, fl := range findIns(worker, isFlush) {
 		r.neverReach("C17.R2:nothing-appended-after-flush", "no getter is dealt with after the flush of this run", worker, fl, []Start{After(fl)}, func(i ssa.Instruction) bool { return isCall(i, deal) }, nil, nil, nil, "no deal() after flush()")
+	}
+	// the closing -> closed transition is made only on the idle exit, never on the "restart" exit
+	for _, ins := range allIns(worker) {
+		a := asAtomic(ins)
+		if a == nil || a.Op != "CompareAndSwap" || structFieldOfAddr(a.Addr) != fState {
+			continue
+		}
+		if _, isDefer := ins.(*ssa.Defer); isDefer {
+			r.ob("C17.R4:closed-only-when-idle", "the worker marks the queue closed only when it exits idle (trigger==0 observed after giving up the run flag); a deferred transition would also fire when it restarts itself with work pending", worker, ins, false, "deferred CompareAndSwap(state, closing, closed) runs on every exit", true)
+			continue
+		}
+		idle := cmpAtom(atomicValOn("Load", fTrigger), isConstEq(0), func(op token.Token) (bool, bool) {
+			switch op {
+			case token.GTR, token.NEQ:
+				return false, true
+			case token.LEQ, token.EQL:
+				return true, true
+			}
+			return false, false
+		})
+		ss := &Search{Fn: worker, CutEdge: cutOn(idle)}
+		wit := ss.Find(startsAfter(releases), isIns(ins), false)
+		r.Visited += ss.Visited
+		r.obW("C17.R4:closed-only-when-idle", "the worker marks the queue closed only when it exits idle (trigger==0 observed after giving up the run flag)", worker, ins, wit, "guarded by Load(trigger)==0 since the release")
+	}
+	// every shard owns its getter buffer: appending to one shard can never reach into another's
+	{
+		ctor := w.MustFn("mux.NewShardQueue")
+		ok, n := true, 0
+		forEachIns(ctor, func(i ssa.Instruction) {
+			st, isSt := i.(*ssa.Store)
+			if !isSt {
+				return
+			}
+			ia, isIA := st.Addr.(*ssa.IndexAddr)
+			if !isIA || !strings.HasSuffix(pathOf(ia.X), ".getters") && !strings.Contains(pathOf(ia.X), "getters") {
+				return
+			}
+			n++
+			switch v := st.Val.(type) {
+			case *ssa.MakeSlice:
+			case *ssa.Slice:
+				// make with constant sizes is "new [N]T; slice": a fresh array per store is its own allocation
+				if _, fresh := v.X.(*ssa.Alloc); !fresh && v.Max == nil {
+					ok = false
+				}
+			default:
+				ok = false
+			}
+		})
+		r.ob("C17.R3:shard-buffers-disjoint", "each shard's getter slice is its own allocation (or a capacity-limited window): append on one shard cannot overwrite another shard's pending getters", ctor, nil, ok && n > 0, fmt.Sprintf("%d shard buffer initialisations", n), true)
 	}
 	// delegators
 	{
